@@ -99,3 +99,82 @@ func e2Family(tier string, amevs []int64) []*Job {
 	}
 	return jobs
 }
+
+// e2WatchScen: X is watch-only (flag set at a validator index, or outside the list).
+func e2WatchScen(name string, n, x int, outside bool, amev int64, dyn bool, start uint32, sp E2Spec) *Scenario {
+	sc := e2scen(name, n, x, amev, sp)
+	if outside {
+		sc.Kinds = nil
+		for i := 0; i < n; i++ {
+			sc.Kinds = append(sc.Kinds, kSilent)
+		}
+		sc.Kinds = append(sc.Kinds, kOutside)
+		sc.E2.X = n
+		sc.Missing = map[int][]H{n: {103}}
+		sc.BadTx = map[int][]H{n: {102}}
+	} else {
+		sc.Kinds[x] = kWatchFlag
+	}
+	sc.StartHeight = start
+	if dyn {
+		sc.MaxTimePerBlock = 30e9
+	}
+	return sc
+}
+
+func c13Jobs(tier string) []*Job {
+	var jobs []*Job
+	per, cap := 100, 300_000
+	if tier == "thorough" {
+		per, cap = 1200, 10_000_000
+	}
+	// E1: a watch-only member at every position, so that it is primary at start / after resets for some start height
+	for _, a := range []int64{-1, 0} {
+		for pos := 0; pos < 4; pos++ {
+			for _, start := range []uint32{4, 5} {
+				sc := scen(fmt.Sprintf("C13-watchflag%d-N4-start%d-%s", pos, start, amevName(a)), 4, withAMEV(a), withKind(pos, kWatchFlag), withHeights(2), withK(2), withMissing(pos, 101))
+				sc.StartHeight = start
+				sc.Dev.Dup, sc.Dev.Stale = false, false
+				if tier != "thorough" {
+					sc.K = 1
+				}
+				jobs = append(jobs, job(sc, per))
+			}
+		}
+		out := scen("C13-outside-node-N4-"+amevName(a), 4, withAMEV(a), withKind(4, kOutside), withHeights(2), withK(2), withMissing(4, 101))
+		jobs = append(jobs, job(out, per))
+	}
+	// dynamic block time, watch-only primary at start
+	dyn := scen("C13-watchflag1-N4-dyn", 4, withKind(1, kWatchFlag), withHeights(2), withK(1), withPool())
+	dyn.MaxTimePerBlock = 30e9
+	jobs = append(jobs, job(dyn, per))
+	jobs = append(jobs, job(scen("C13-watchflag0-N1", 1, withKind(0, kWatchFlag), withK(2)), per))
+	jobs = append(jobs, job(scen("C13-watchflag2-N7", 7, withKind(2, kWatchFlag), withK(1)), per))
+	// E2: the watch-only node against the most general environment
+	for _, a := range []int64{-1, 0} {
+		pc := ""
+		if a >= 0 {
+			pc = "AG"
+		}
+		sp := E2Spec{Views: 2, Proposals: "AB", Responses: "A", Commits: "AG", PreCommits: pc, CVs: 1, RecReq: true, Bundles: true, MaxDepth: 10, StateCap: cap, Peers: []int{0, 1, 3}}
+		for _, start := range []uint32{4, 5} { // X = index 2 is primary of height 6 (start 5), backup at height 5
+			jobs = append(jobs, job(e2WatchScen(fmt.Sprintf("E2-watchflag-x2-start%d-%s", start, amevName(a)), 4, 2, false, a, false, start, sp), per))
+		}
+		spo := sp
+		spo.Peers = nil
+		jobs = append(jobs, job(e2WatchScen("E2-outside-"+amevName(a), 4, 0, true, a, false, 4, spo), per))
+	}
+	spd := E2Spec{Views: 1, Proposals: "A", Responses: "A", Commits: "A", RecReq: true, MaxDepth: 10, StateCap: cap, Peers: []int{0, 1, 3}}
+	jobs = append(jobs, job(e2WatchScen("E2-watchflag-x2-dyn", 4, 2, false, -1, true, 5, spd), per))
+	return jobs
+}
+
+func init() {
+	e1Check("C13", "E1 (a watch-only member, by flag at every validator position or outside the list, N=1/4/7, two heights so that its index is primary at start or after Reset, anti-MEV off/on, dynamic block time; <=k deviations) + E2 (the watch-only node alone against the unconstrained environment alphabet: proposals with missing transactions, responses, (pre)commits, change views, recovery requests and bundles, timeouts, transaction supplies); oracle: zero Broadcast / Block.Sign / PreBlock.SetData calls by the watch-only node in every state. With zero broadcasts the other validators cannot distinguish it from a silent validator, which gives the differential half of the property.",
+		c13Jobs, func(a *Aggregate) string {
+			if a.States < 1000 {
+				return "too few states"
+			}
+			return ""
+		})
+}
